@@ -516,12 +516,14 @@ class simplify_chained_calls(FuncADLNodeTransformer):
         "Do the lookup for the dict. Returns None if the key can't be resolved."
         if not all(isinstance(k, ast.Constant) for k in v.keys):
             return None
+        found = None
         for index, value in enumerate(v.keys):
             assert isinstance(value, ast.Constant)
             if value.value == s:
-                return copy.deepcopy(v.values[index])
+                # As in python, when a key is repeated the last one wins.
+                found = index
 
-        return None
+        return copy.deepcopy(v.values[found]) if found is not None else None
 
     def visit_Subscript_Of_First(self, first: ast.expr, s):
         """
